@@ -343,3 +343,42 @@ Proof.
   - intros t Ht. rewrite (Hw t Ht). apply in_seq in Ht.
     destruct (Hsame t ltac:(lia)) as [_ [Hx _]]. rewrite Hx. reflexivity.
 Qed.
+
+(* ---------- the sequence dimension ----------------------------------------------------------- *)
+(* a non-negative dim and its negative spelling address the same axis; every legal dim gives
+   an r-position in [1, rank-1] *)
+Lemma axis_pos_legal (dim : Z) (kr : nat) :
+  (0 <= dim < Z.of_nat kr - 1)%Z ->
+  axis_pos dim kr = Some (kr - 1 - Z.to_nat dim)
+  /\ 1 <= kr - 1 - Z.to_nat dim < kr
+  /\ ((1 <= dim)%Z -> axis_pos (dim - Z.of_nat kr) kr = axis_pos dim kr).
+Proof.
+  intros H. unfold axis_pos.
+  assert (E1 : (dim <? 0)%Z = false) by (apply Z.ltb_ge; lia). rewrite E1.
+  assert (E2 : ((1 - Z.of_nat kr <=? dim) && (0 <=? dim) && (dim <? Z.of_nat kr - 1))%Z = true).
+  { rewrite !andb_true_iff. repeat split; [apply Z.leb_le|apply Z.leb_le|apply Z.ltb_lt]; lia. }
+  rewrite E2. split; [reflexivity|]. split; [lia|].
+  intros H1.
+  assert (E3 : (dim - Z.of_nat kr <? 0)%Z = true) by (apply Z.ltb_lt; lia). rewrite E3.
+  replace (dim - Z.of_nat kr + Z.of_nat kr)%Z with dim by lia.
+  assert (E4 : ((1 - Z.of_nat kr <=? dim - Z.of_nat kr) && (0 <=? dim) && (dim <? Z.of_nat kr - 1))%Z = true).
+  { rewrite !andb_true_iff. repeat split; [apply Z.leb_le|apply Z.leb_le|apply Z.ltb_lt]; lia. }
+  rewrite E4. reflexivity.
+Qed.
+
+(* ---------- projections carry a bias exactly when one is given --------------------------------- *)
+Lemma linear_bias_exact W t c i :
+  (forall b, tat (linear W (Some b) t) (c :: i) = (tat (linear W None t) (c :: i) + nth c b 0%Q)%Q)
+  /\ tat (linear W None t) (c :: i)
+     = dotq (map (fun j => tat t (j :: i)) (seq 0 (hd 0 (tshape t)))) (nth c W []).
+Proof. split; [intros b|]; reflexivity. Qed.
+
+(* ---------- the oracle used by the correspondence meets the theorems' hypothesis -------------- *)
+Lemma lookup_positive tbl :
+  (forall kv, In kv tbl -> (0 < snd kv)%Q) -> forall x, (0 < lookup tbl x)%Q.
+Proof.
+  intros H x. unfold lookup.
+  destruct (find (fun kv => near (Qred x) (fst kv)) tbl) as [kv|] eqn:E.
+  - apply find_some in E. apply H, E.
+  - reflexivity.
+Qed.
